@@ -7,7 +7,9 @@ from perception_eval.common.evaluation_task import EvaluationTask
 from perception_eval.common.label import AutowareLabel
 from perception_eval.evaluation.matching import MatchingLabelPolicy, MatchingMode
 from perception_eval.evaluation.matching.objects_filter import divide_objects, divide_objects_to_num, get_negative_objects, get_positive_objects
+from perception_eval.evaluation.metrics.detection.ap import Ap
 from perception_eval.evaluation.metrics.detection.map import Map
+from perception_eval.evaluation.metrics.detection.tp_metrics import TPMetricsAp, TPMetricsAph
 from perception_eval.evaluation.result.object_result import DynamicObjectWithPerceptionResult, get_object_results
 
 from mc.gen import objects as G
@@ -24,7 +26,7 @@ ASSUMPTIONS = [
     "ordinary (non false-positive-labelled) ground truth only, as the statement demands; tolerance 1e-12 on AP differences",
 ]
 LAD = {"CENTERDISTANCE": [0.0, 0.1, 0.5, 1.0, 2.0, 4.0, 50.0], "PLANEDISTANCE": [0.0, 0.1, 0.5, 1.0, 2.0, 4.0, 50.0],
-       "IOU2D": [0.9, 0.7, 0.5, 0.3, 0.1, 0.0], "IOU3D": [0.9, 0.7, 0.5, 0.3, 0.1, 0.0]}
+       "IOU2D": [1.0, 0.9, 0.7, 0.5, 0.3, 0.1, 0.0], "IOU3D": [1.0, 0.9, 0.7, 0.5, 0.3, 0.1, 0.0]}
 DIST_LEVELS = [0.1, 0.4, 0.8, 1.5, 3.0, 10.0]
 SYMS = ["d0", "d1", "d2", "d3", "d4", "d5", "h", "N", "I"]
 SYMS6 = ["d0", "d2", "d3", "d4", "h", "N"]
@@ -190,6 +192,20 @@ def check_case(case, acc):
                 ch, first, last = _walk(case, {CAR: car, PED: ped}, car + ped, None, {CAR: gc, PED: 2}, labels, mode, lad, acc,
                                         lambda s_, m_, mn=mname: bad(s_, m_ + " mode=" + mn))
                 tot += ch
+        # the same TP-metric instances reused along the ladder (what a caller looping over thresholds does): AP / APH stay monotone
+        for mname in ("CENTERDISTANCE", "IOU2D"):
+            mode, lad = MatchingMode[mname], LAD[mname]
+            tp_ap, tp_aph = TPMetricsAp(), TPMetricsAph()
+            prev = None
+            for t in lad:
+                acc.exec(2)
+                cur = (Ap(tp_ap, [list(car)], max(1, nT), [CAR], mode, [t]).ap, Ap(tp_aph, [list(car)], max(1, nT), [CAR], mode, [t]).ap)
+                if prev is not None:
+                    acc.compared()
+                    for nm, a_, b_ in (("AP", prev[0], cur[0]), ("APH", prev[1], cur[1])):
+                        if (a_ == float("inf")) != (b_ == float("inf")) or (a_ != float("inf") and b_ < a_ - 1e-12):
+                            bad("ap-decreased:shared-metric-instance:" + nm, "%s with a reused TP-metric instance drops from %r to %r when loosening to %s (mode %s)" % (nm, a_, b_, t, mname))
+                prev = cur
         acc.state(("a", tuple(seq), tot > 0), nontrivial=tot > 0)
         acc.outcome(("a", len(first["tp"]), len(last["tp"])))
         if acc.cases % 401 == 1:
